@@ -88,6 +88,15 @@ fn run_seq<X: Tree>(ctx: &mut Ctx, gen: &Gen, vm: &str, ties: Option<Vec<usize>>
     let mut buf = vals.clone();
     let t = ctx.total("new", &o.class, 0, vals.len() as u64, 0, || X::new_(&mut buf));
     qwt::verif_hooks::set_tie_script(None);
+    if vals.is_empty() {
+        // the derived Default is an empty structure too, and one that no constructor builds
+        if let Some(d) = ctx.total("default", "default", 0, 0, 0, X::default) {
+            let mut od = o.clone();
+            od.class = "default".into();
+            sweep_tree(ctx, &d, &r, &od);
+            ctx.count("default_states_swept");
+        }
+    }
     if let Some(t) = t {
         sweep_tree(ctx, &t, &r, &o);
         // states obtained by deserialization or by clone_from into a value that held something else must answer like the
@@ -122,7 +131,7 @@ fn run_seq<X: Tree>(ctx: &mut Ctx, gen: &Gen, vm: &str, ties: Option<Vec<usize>>
                 qwt::verif_hooks::set_tie_script(None);
                 if let Some(d) = d {
                     let mut o2 = o.clone();
-                    o2.class = format!("{} {}", o.class, if how == 2 { "deserialized" } else { "clone_from" }).trim().to_string();
+                    o2.class = sub_class(&o.class, if how == 2 { "deserialized" } else { "clone_from" });
                     o2.dense_limit = o.dense_limit.min(600);
                     sweep_tree(ctx, &d, &r, &o2);
                     if how == 3 {
@@ -390,11 +399,12 @@ fn huff_family(out: &mut Vec<TCase>, aliases: &[&str], thorough: bool, binary: b
             }
         }
     } else {
-        let ds: Vec<u32> = if thorough { (2..=12).chain([15, 16, 17]).collect() } else { (2..=8).collect() };
+        // quick: every depth up to 12 for all aliases, 14 and 16 (32-bit codewords, n = 1.09 million) for every other alias
+        let ds: Vec<u32> = if thorough { (2..=12).chain([13, 14, 15, 16, 17]).collect() } else { (2..=12).chain([14, 16]).collect() };
         for d in ds {
             for (j, &al) in aliases.iter().enumerate() {
                 let big = d > 12;
-                if big && j % 2 == 1 {
+                if big && (j % 2 == 1 || (!thorough && j != 0)) {
                     continue;
                 }
                 out.push(seq(al, if j % 2 == 0 { "u16" } else { "u64" }, Gen::Huff { freqs: chain4(d), arr: if big { 0 } else { 2 } }, "hid", 600, if big { 8 } else { 40 }));
